@@ -157,7 +157,7 @@ class Check:
             if rc != 0:
                 raise RuntimeError("modelrun build failed:\n" + out)
 
-    def build_harness(self, race=False, extra_overlay=None, tags="verif"):
+    def build_harness(self, race=False, extra_overlay=None, tags="verif", pkgs=None):
         """Build the Go harness against /repo's current working tree, with the add-only
         white-box accessor files of /verif/hooks overlaid (nothing is written into /repo)."""
         overlay = {}
@@ -169,6 +169,13 @@ class Check:
                     overlay[os.path.join(REPO, rel)] = os.path.join(root, f)
         if extra_overlay:
             overlay.update(extra_overlay)
+        if pkgs is None and os.environ.get("HARNESS_ONLY"):
+            pkgs = os.environ["HARNESS_ONLY"].split()
+        if pkgs is not None:
+            # link only the named harness sub-packages (a half-written package of someone else cannot break this build)
+            imp = os.path.join(self.tmp, "imports_only.go")
+            open(imp, "w").write("package main\n\nimport (\n" + "".join('\t_ "verifharness/%s"\n' % p for p in pkgs) + ")\n")
+            overlay[os.path.join(HARNESS, "imports_gen.go")] = imp
         sh(["bash", os.path.join(VERIF, "tools/genimports.sh")])
         ov = os.path.join(self.tmp, "overlay.json")
         json.dump({"Replace": overlay}, open(ov, "w"))
@@ -236,6 +243,39 @@ class Check:
         gerr = g.stderr.read() if g.stderr else b""
         txt = open(report).read() if os.path.exists(report) else ""
         return m.returncode, txt, (merr or b"").decode(errors="replace")[-3000:], gerr.decode(errors="replace")[-3000:]
+
+    def check_labels(self, model, labels):
+        """The synchronisation skeleton: every label the model's program counters carry must be a
+        yield point the instrumenter derived from /repo's CURRENT source, and every statement of the
+        functions the model claims to cover must have a program counter.  Returns list of problems."""
+        rep = os.path.join(self.tmp, "labels_%s.txt" % model)
+        p = subprocess.run([MODELRUN, model, "labels", rep], stdin=subprocess.DEVNULL, stdout=subprocess.PIPE,
+                           stderr=subprocess.PIPE, text=True, timeout=120)
+        txt = open(rep).read() if os.path.exists(rep) else ""
+        mlabels = [l[6:] for l in txt.splitlines() if l.startswith("LABEL ")]
+        funcs = [l[5:] for l in txt.splitlines() if l.startswith("FUNC ")]
+        src = set(l["label"] for l in labels)
+        problems = []
+        for l in mlabels:
+            if l not in src:
+                problems.append("model statement not in the source any more: " + l)
+        for l in labels:
+            if l["func"] in funcs and l["label"] not in mlabels:
+                problems.append("source statement the model does not have: " + l["label"])
+        self.cov.setdefault("skeleton", {})[model] = {"model_labels": len(mlabels), "covered_functions": funcs,
+                                                       "problems": len(problems)}
+        return problems
+
+    def parse_lockstep_report(self, txt):
+        stats = {}
+        m = re.search(r"STATS schedules=(\d+) events=(\d+) mismatches=(\d+) distinct=(\d+) nontrivial=(\d+)", txt)
+        if m:
+            stats = dict(schedules=int(m.group(1)), events=int(m.group(2)), mismatches=int(m.group(3)),
+                         distinct=int(m.group(4)), nontrivial=int(m.group(5)))
+        tags = {t: int(n) for t, n in re.findall(r"^TAG (\S+) (\d+)$", txt, re.M)}
+        samples = re.findall(r"^SAMPLE (.*)$", txt, re.M)
+        mism = re.findall(r"^((?:MISMATCH|MODEL-DISABLED|MODEL-CHECK-FAILED).*(?:\n  .*)*)", txt, re.M)
+        return stats, tags, samples, mism
 
     def run_impl(self, binary, args, cases_text, timeout=1800, env=None):
         e = dict(GOENV)
